@@ -201,6 +201,7 @@ for t in INTS:
 for t in ["u8", "i16", "i32", "u32", "i64", "u64", "isize"]:
     OBS[f"roundtrip_{t}"] = _o(["C20"], "proof", [f"FromSteelVal/IntoSteelVal for {t}"], "from_steelval(into_steelval(v)) == Ok(v)")
 OBS["into_steelval_u128"] = _o(["C20"], "proof", ["impl IntoSteelVal for u128"], "value preserved (v < 2^100)")
+OBS["complex_imaginary_sign_classification"] = _o(["C12"], "proof", ["SteelComplex::imaginary_is_finite", "SteelComplex::imaginary_is_negative"], "for every f64 / fixnum imaginary part: finite <=> is_finite (NaN and infinities are not), negative <=> sign bit; the writer relies on this to print `a+bi` only when that is readable syntax")
 OBS["big_to_small_int_conversions"] = _o(["C20"], "proof", ["FromSteelVal for u8/i8/i64 (BigNum arm)"], "a bignum never converts to a narrower integer")
 OBS["float_char_bool_unit_conversions"] = _o(["C20"], "proof", ["from_f64!", "try_from_impl!(NumV)", "char/bool/()/Option impls"], "f64/f32/char/bool/()/Option round trip; mistyped values are ConversionErrors")
 OBS = {k: v for k, v in OBS.items() if v}
